@@ -494,8 +494,11 @@ class FunctionLocation(Location):
 
         # if method_name is not set then we need to discover it from the frame.
         if self.__function_name is None:
-            # load source lines
-            lines, start = inspect.getsourcelines(frame)
+            # load source lines (not every frame has source: exec/eval, interactive input, frozen or compiled modules)
+            try:
+                lines, start = inspect.getsourcelines(frame)
+            except (OSError, TypeError):
+                return False
             end = start + len(lines)
             # if the targeted line is in the range of start to end
             if start <= line >= end:
